@@ -28,6 +28,22 @@ def _expr(text):
     return sympy.sympify(text, locals={s: sympy.Symbol(s) for s in SYMS})
 
 
+def _close(x, y, tol=1e-12):
+    """|x - y| <= tol for complex numbers, with NaN equal to NaN and inf equal to inf part by part (a wavefunction
+    with symbols may legitimately hold such an entry; it must then read back as what was stored)."""
+    x, y = complex(x), complex(y)
+    for a, b in ((x.real, y.real), (x.imag, y.imag)):
+        if a != a or b != b:
+            if not (a != a and b != b):
+                return False
+        elif a in (float("inf"), float("-inf")) or b in (float("inf"), float("-inf")):
+            if a != b:
+                return False
+        elif abs(a - b) > tol:
+            return False
+    return True
+
+
 def _is_num(e):
     if isinstance(e, sympy.Basic):
         if e.free_symbols:
@@ -64,12 +80,16 @@ def classify(entries, symbolic):
         free |= set(getattr(e, "free_symbols", set()))
     mass = float(sum(abs(complex(e)) ** 2 for e in entries if _is_num(e)))
     if not free:
+        if mass != mass or mass in (float("inf"), float("-inf")):
+            return "reject"   # NaN / infinite amplitudes: the squared magnitudes do not sum to 1
         err = abs(mass - 1.0)
         if err <= TOL_OK:
             return "accept"
         if err >= TOL_BAD:
             return "reject"
         return "grey"
+    if mass != mass:
+        return "grey"   # a NaN next to symbols: the statement only bounds the numeric weight from above
     if mass <= 1.0 - 1e-9:
         return "accept"
     if mass >= 1.0 + 1e-9:
@@ -84,7 +104,7 @@ def sym_equal(x, y):
     fx, fy = x.free_symbols, y.free_symbols
     if not fx and not fy:
         try:
-            return abs(complex(x) - complex(y)) <= 1e-12
+            return _close(x, y)
         except Exception:
             return False
     if fx != fy:
@@ -194,7 +214,13 @@ class World:
     def _gen_new(self, r, cfg, force_valid=False):
         dim = 2 ** cfg["n"]
         kind = r.choice(["num", "num", "sym", "mixed"]) if force_valid else r.choices(
-            ["num", "sym", "mixed", "badlen", "unnorm", "overmass", "grey", "symnum"], [4, 3, 3, 1, 1, 1, 1, 1])[0]
+            ["num", "sym", "mixed", "badlen", "unnorm", "overmass", "grey", "symnum", "nonfinite"], [4, 3, 3, 1, 1, 1, 1, 1, 0.6])[0]
+        if kind == "nonfinite":
+            v = self._rand_unit(r, dim)
+            bad = r.choice([[float("nan"), 0.0], [0.0, float("nan")], [float("inf"), 0.0], [float("-inf"), 0.0]])
+            ents = [[x.real, x.imag] for x in v]
+            ents[r.randrange(dim)] = bad
+            return {"op": "new", "args": {"kind": "nonfinite", "entries": ents}}
         if kind in ("num", "unnorm", "grey", "badlen"):
             v = self._rand_unit(r, dim)
             if kind == "unnorm":
@@ -267,7 +293,7 @@ class World:
         else:
             k = r.randint(1, min(dim, 3))
             idx = {"list": r.sample(range(dim), k)}
-        mode = r.choices(["phase", "scale", "perm", "raw", "sym", "grey", "renorm"], [6, 4, 2, 2, 3, 1, 3])[0]
+        mode = r.choices(["phase", "scale", "perm", "raw", "sym", "grey", "renorm", "nonfinite"], [6, 4, 2, 2, 3, 1, 3, 0.5])[0]
         val = {"mode": mode}
         if mode == "phase":
             val["phi"] = r.choice([r.uniform(-math.pi, math.pi), math.pi, 0.0, math.pi / 2])
@@ -277,6 +303,9 @@ class World:
             val["s"] = math.sqrt(1 + r.choice([-1, 1]) * r.uniform(2e-6, 5e-5))
         elif mode == "raw":
             val["vals"] = [[r.uniform(-1, 1), r.uniform(-1, 1)] for _ in range(4)]
+        elif mode == "nonfinite":
+            val["mode"] = "raw"
+            val["vals"] = [r.choice([[float("nan"), 0.0], [float("inf"), 0.0], [0.0, float("nan")]]) for _ in range(4)]
         elif mode == "sym":
             val["e"] = r.choice(["a", "b", "c", "a*I", "a/2", "a+b", "cos(a)", "1/2", "sqrt(2)/2", "0"])
         elif mode == "renorm":
@@ -403,9 +432,9 @@ class World:
                 if sym:
                     ok = sym_equal(x, y)
                 else:
-                    ok = _is_num(y) and complex(x) == complex(y)
+                    ok = _is_num(y) and _close(x, y, 0.0)
                     if not ok and _is_num(y) and ent.get("approx"):
-                        ok = abs(complex(x) - complex(y)) <= 1e-12
+                        ok = _close(x, y)
                 if not ok:
                     ctx.fail("refine", "entry", f"{where}: entry {i} is {x!r}, model says {y!r}")
             # the invariant itself, judged on the *actual* content
@@ -417,7 +446,8 @@ class World:
             if not free:
                 ctx.check(abs(mass - 1.0) < TOL_BAD, "invariant", "not-normalised", f"{where}: sum |a|^2 = {mass!r}")
             else:
-                ctx.check(mass < 1.0 + 1e-9, "invariant", "numeric-mass-exceeds-one", f"{where}: numeric mass {mass!r}")
+                # (a NaN next to symbols does not "exceed 1": the statement only bounds the numeric weight from above)
+                ctx.check(not (mass > 1.0 + 1e-9), "invariant", "numeric-mass-exceeds-one", f"{where}: numeric mass {mass!r}")
 
     def invariant(self, ctx, st, step):
         seen = set()
@@ -801,7 +831,7 @@ class World:
                 x, y = obj[i], m.entries[i]
                 if _is_num(y):
                     xs = np.asarray(x, dtype=object).reshape(-1)
-                    ctx.check(len(xs) == 1 and abs(complex(xs[0]) - complex(y)) <= 1e-12, "refine", "getitem",
+                    ctx.check(len(xs) == 1 and _close(xs[0], y), "refine", "getitem",
                               f"w[{i}] = {x!r}, model {y!r}")
                 else:
                     ctx.check(sym_equal(x, y), "refine", "getitem-sym", f"w[{i}] = {x!r}, model {y!r}")
@@ -810,7 +840,7 @@ class World:
             if not m.free():
                 flat = np.array(amps, dtype=complex).reshape(-1)
                 for i, (x, y) in enumerate(zip(flat, m.entries)):
-                    ctx.check(abs(complex(x) - complex(y)) <= 1e-12, "refine", "amplitudes", f"amplitudes[{i}] = {x!r}, model {y!r}")
+                    ctx.check(_close(x, y), "refine", "amplitudes", f"amplitudes[{i}] = {x!r}, model {y!r}")
                 p = np.array(obj.get_probabilities(), dtype=complex).reshape(-1)
                 for i in range(dim):
                     want = abs(complex(m.entries[i])) ** 2
